@@ -589,13 +589,13 @@ def _parse_config_input_common(toml, path):
     _input["timestep"] = _input.get("timestep", np.nan)
     if not isinstance(_input["timestep"], float | int):
         raise _err.ConfigError(
-            f"timestep must be float or int, not {type(input['timestep'])}"
+            f"timestep must be float or int, not {type(_input['timestep'])}"
         )
 
     _input["strain_final"] = _input.get("strain_final", np.inf)
     if not isinstance(_input["strain_final"], float | int):
         raise _err.ConfigError(
-            f"final strain must be float or int, not {type(input['strain_final'])}"
+            f"final strain must be float or int, not {type(_input['strain_final'])}"
         )
 
     return _input
